@@ -18,8 +18,11 @@ ASSUMPTIONS = [
     "arriving while the estimate still stems from that fill may leave it or recompute it (DESIGN 5.4)",
     "a market event after which the data state has no price (candle, liquidation, one-sided / empty L1 before any "
     "public trade), or that arrives without an open position, is a stutter: the estimate stays as it is (MarkNoPrice)",
-    "the bookkeeping of the position (C02) and the data-state price are taken as given: a scenario where they diverge "
-    "from the generator's expectation is not judged under C15",
+    "the bookkeeping of the position (C02) is taken as given: a scenario where it diverges from the generator's "
+    "expectation is not judged under C15. The data-state price is judged: with a position open, price() after a "
+    "market event must be the documented one of DefaultInstrumentMarketData (mid of the held top of book if it has "
+    "both sides - a newer one-sided / empty top of book replaces it - else the last public trade), otherwise the "
+    "estimate is evaluated at an older price",
     "L1 events carry last_update_time == time_exchange; public trade prices are f64 (integers in the scenarios)",
     "prices are any integers: market prices (trades, L1 mids) and - for this property only - fill prices include 0 and "
     "negative values (spreads, sub-zero futures); C15 does not restrict the sign of a price",
